@@ -118,7 +118,7 @@ fn directive_programs() -> Vec<(String, String)> {
             add("db-zero-array", &format!("{} [{}]\nstart: hlt\n", db, n));
             add("dw-zero-array", &format!("b: {} [{}]\nstart: lea bx, word b\n", dw, n));
         }
-        for st in ["\"press \"q\" to quit\"", "\"a\"b\"", "\"\"\"", "\"\"\"\"", "\"say \"\"\"", "\"it's\"", "\"a\\\"", "\"\"\"", "\"a\"", "\"Hello World\"", "\"with ; semicolon\"", "\"tab\\tno escape\"", "\"~!@#$%^&*()_+{}|:<>?\""] {
+        for st in ["\"C:\\xampp\\htdocs\"", "\"\\x\"", "\"\\xZ9 \\n \\t \\0 \\\\ \\q\"", "\"C:\\TOOLS\\\"", "\"a  b   c\"", "\"  lead and trail  \"", "\"press \"q\" to quit\"", "\"a\"b\"", "\"\"\"", "\"\"\"\"", "\"say \"\"\"", "\"it's\"", "\"a\\\"", "\"\"\"", "\"a\"", "\"Hello World\"", "\"with ; semicolon\"", "\"tab\\tno escape\"", "\"~!@#$%^&*()_+{}|:<>?\""] {
             add("db-string", &format!("s: {} {}\nstart: mov al, byte s\n", db, st));
             add("dw-string", &format!("{} {}\nstart: hlt\n", dw, st));
         }
